@@ -218,25 +218,34 @@ def _hasseb(run, repo, world, folder):
     mod = repo.mod(HID)
     o, fn = _m(world, HID + ".hasseb", "_send_raw")
     Q = HID + ".hasseb._send_raw"
-    writes = [c for c in call_sites(fn) if unparse(c.func) == "os.write"]
-    ok = len(writes) == 1 and unparse(writes[0].args[1]) == \
-        "frame.pack_len(%d)" % sp["frame_bytes"]
-    loop = None
-    for n in ast.walk(fn):
-        if isinstance(n, ast.For) and any(w in ast.walk(n) for w in writes):
-            loop = n
-    times = [unparse(n.value) for n in ast.walk(fn) if isinstance(
-        n, ast.Assign) and unparse(n.targets[0]) == "times"]
-    run.ob("R-WIRE-HASSEB", Q + "#packet", ok and loop is not None and
-           unparse(loop.iter) == "range(times)" and times ==
-           ["2 if command.sendtwice else 1"],
-           "the frame must be written as pack_len(2), twice iff sendtwice "
-           "(times=%s)" % times, where(mod, fn),
-           sample={"rule": "R-WIRE-HASSEB", "write": unparse(writes[0])
-                   if writes else None, "times": times})
-    run.ob("R-WIRE-HASSEB", Q + "#refusal",
-           _refusal(fn, ["len(frame) != 16"], "UnsupportedFrameTypeError"),
-           "frames that are not 16 bit must be refused", where(mod, fn))
+    # the encoder evaluated per case (frame size x send-twice): the writes
+    # it performs, as byte templates over the frame's bytes
+    from ..wireval import WireEval, CmdObj, SelfObj, Sym
+    from ..drv import expand_method
+    c = world.cls(HID + ".hasseb")
+    xfn = expand_method(world, c, fn, aliases="params")
+    nb = sp["frame_bytes"]
+    for bits in (8, 16, 24):
+        for tw in (False, True):
+            case = {"nbytes": (bits + 7) // 8, "nbits": bits,
+                    "sendtwice": tw, "response": None}
+            r = WireEval(world, folder, c, case, stop_at_write=False).run(
+                xfn, {"self": SelfObj(c), "command": CmdObj(case)})
+            if bits != 8 * nb:
+                run.ob("R-WIRE-HASSEB", Q + "#refusal", r[0] == "raise" and
+                       r[1] == "UnsupportedFrameTypeError",
+                       "a %d-bit frame must be refused before anything is "
+                       "written, got %r" % (bits, r), where(mod, fn),
+                       trivial=(bits, tw) != (24, False))
+                continue
+            want = [[Sym("b%d" % k) for k in range(nb)]] * (2 if tw else 1)
+            got = [list(t) for t in r[1]] if r[0] == "write" else r
+            run.ob("R-WIRE-HASSEB", Q + "#packet", got == want,
+                   "a 16-bit%s command must be written as %s, found %s" % (
+                       " send-twice" if tw else "", want, got),
+                   where(mod, fn),
+                   sample={"rule": "R-WIRE-HASSEB", "sendtwice": tw,
+                           "writes": repr(got)}, trivial=tw)
 
 
 def _list_literal(fn, name):
